@@ -26,7 +26,7 @@ def one(sid):
     return sid, fired, errors, rules
 
 
-with ThreadPoolExecutor(3) as ex:
+with ThreadPoolExecutor(4) as ex:
     res = list(ex.map(one, ids))
 for sid, fired, errors, rules in res:
     mp = VERIF / "seeded" / sid / "meta.json"
